@@ -66,6 +66,41 @@ def check(tier):
     for i, x in enumerate(LITERALS):
         srcs.append({"id": f"l{i}", "src": f"from t | derive {{v = {x}}}"})
         srcs.append({"id": f"l{i}b", "src": f"from t | derive {{v = {x}, w = ({x})}} | filter (f {x} a)"})
+    # string contents: one representative per character class the formatter has to escape or keep (control characters
+    # incl. NUL, DEL and C1, separators, zero-width and combining characters, the BOM, quotes, backslash, braces), written
+    # as an escape and - where the lexer takes it - verbatim, in plain, f- and s-strings, alone and between letters
+    CHS = ["0", "1", "8", "c", "1b", "7f", "85", "a0", "ad", "301", "200b", "2028", "2029", "feff", "fffd", "1f600", "9", "a", "d", "22", "27", "5c", "7b", "7d"]
+    n_ = 0
+    for h in CHS:
+        esc = "\\u{" + h + "}"
+        for body in (esc, "a" + esc + "b"):
+            srcs.append({"id": f"sc{n_}", "src": f"from t | derive {{v = \"{body}\"}}"}); n_ += 1
+            srcs.append({"id": f"sc{n_}", "src": f"from t | derive {{v = '{body}'}} | filter v != \"{body}x\""}); n_ += 1
+        if h not in ("7b", "7d", "22"):
+            srcs.append({"id": f"sc{n_}", "src": f"from t | derive {{v = f\"{esc}{{a}}\"}}"}); n_ += 1
+            srcs.append({"id": f"sc{n_}", "src": f"from t | derive {{v = s\"LENGTH('{esc}')\"}}"}); n_ += 1
+        if int(h, 16) < 256:
+            srcs.append({"id": f"sc{n_}", "src": f"from t | derive {{v = \"p\\x{int(h, 16):02x}q\"}}"}); n_ += 1
+        ch = chr(int(h, 16))
+        if ch not in "\"'\\{}\n\r\0":
+            srcs.append({"id": f"sc{n_}", "src": f"from t | derive {{v = \"<{ch}>\"}}"}); n_ += 1
+    # f-string interpolations with format specifications; ranges whose bounds are operator expressions; names that need
+    # backticks in every declaration form
+    for i, x in enumerate(["f\"{a:>10} and {b:.2f}\"", "f\"{a:05}\"", "f\"x{a}y{b:e}\""]):
+        srcs.append({"id": f"fs{i}", "src": f"from t | derive {{v = {x}}}"})
+    OPS = ["+", "-", "*", "/", "//", "%", "**", "??", "==", "&&"]
+    for i, o in enumerate(OPS):
+        srcs.append({"id": f"rg{i}a", "src": f"from t | derive {{v = 1 + (a {o} b)..c}}"})
+        srcs.append({"id": f"rg{i}b", "src": f"from t | derive {{v = a..(b {o} c)}}"})
+        srcs.append({"id": f"rg{i}c", "src": f"from t | filter (a | in (b {o} 1)..(c {o} 2))"})
+        srcs.append({"id": f"rg{i}d", "src": f"from t | derive {{v = (a..b) {o} c, w = a {o} (b..c)}}"})
+    for i, nm in enumerate(["`my mod`", "`select`", "`let`", "`a.b`", "`1x`", "`$p`", "plain"]):
+        srcs.append({"id": f"dn{i}a", "src": f"module {nm} {{\n  let x = 1\n}}\nfrom t | derive {{v = {nm}.x}}"})
+        srcs.append({"id": f"dn{i}b", "src": f"type {nm} = int\nfrom t"})
+        srcs.append({"id": f"dn{i}c", "src": f"let {nm} = (from t)\nfrom {nm}"})
+        srcs.append({"id": f"dn{i}d", "src": f"from t\ninto {nm}\nfrom {nm}"})
+        srcs.append({"id": f"dn{i}e", "src": f"let {nm} = x y:1 -> x + y\nfrom t | derive {{v = {nm} a}}"})
+        srcs.append({"id": f"dn{i}f", "src": f"module m {{\n  let {nm} = 2\n}}\nimport q = m.{nm}\nfrom t | derive {{v = q}}"})
     for i, x in enumerate(IDENTS):
         srcs.append({"id": f"i{i}", "src": f"from t | select {{{x}}}"})
         srcs.append({"id": f"i{i}b", "src": f"from t | derive {{z = {x} + 1}} | sort {{{x}}}"})
